@@ -141,17 +141,25 @@ def sub_offsets(case):
 
 
 def sub_accessor(case):
-    ts = pd.DatetimeIndex([pd.Timestamp(v) for v in case["times"]])
-    da = xr.DataArray(np.arange(len(ts)), dims=("time",), coords={"time": ts})
+    unit = case.get("unit")
+    if unit:
+        # coarse datetime64 units reach every year 1..9999 (nanoseconds only span 1678..2261)
+        arr = np.array(case["times"], dtype="datetime64[%s]" % unit)
+        da = xr.DataArray(np.arange(arr.size), dims=("time",), coords={"time": arr})
+        ts = [dt.datetime.fromisoformat(v) for v in case["times"]]
+        ks = [Dekad(t) for t in ts]
+        ts = pd.Index(ts, dtype=object)
+    else:
+        ts = pd.DatetimeIndex([pd.Timestamp(v) for v in case["times"]])
+        da = xr.DataArray(np.arange(len(ts)), dims=("time",), coords={"time": ts})
+        ks = [Dekad(t.to_pydatetime()) for t in ts]
     acc = call(".dekad accessor", lambda: da.time.dekad)
-    ks = [Dekad(t.to_pydatetime()) for t in ts]
     pairs = {"idx": [k.idx for k in ks], "yidx": [k.yidx for k in ks], "ndays": [k.ndays for k in ks], "label": [str(k) for k in ks],
              "raw": [k.raw for k in ks], "linspace": [k.yidx - 1 for k in ks], "year": [k.year for k in ks], "month": [k.month for k in ks]}
     for name, want in pairs.items():
         got = call(".dekad.%s" % name, lambda: getattr(acc, name))
         req(isinstance(got, xr.DataArray) and list(got.values.tolist()) == want, ".dekad.%s = %s, scalar class %s (times %s)" % (
             name, got.values.tolist()[:6], want[:6], [str(t) for t in ts[:6]]), "accessor " + name)
-        m = model_fields(ts[0].date())
     for name in ("start_date", "end_date"):
         got = call(".dekad.%s" % name, lambda: getattr(acc, name))
         want = [np.datetime64(getattr(k, name), "us") for k in ks]
@@ -160,6 +168,7 @@ def sub_accessor(case):
     for t, k in zip(ts, ks):
         m = model_fields(t.date())
         req(k.raw == m["raw"], "Dekad(%r).raw" % t, "dekad fields")
+        req(str(k) == m["label"], "Dekad(%r) label" % t, "dekad fields")
 
 
 def sub_history(case):
@@ -292,3 +301,17 @@ def run(ctx):
     rng = st.builds(_daily, st.integers(1700, 2200), st.integers(0, 364), st.integers(300, 800), st.sampled_from([1, 1, 1, 5, 10]),
                     st.sampled_from([0, 0, 13]), st.booleans())
     ctx.given("accessor", rng, ctx.n(25, 300), fn=f_a, shrink=False)
+
+    def _wide(unit, stamps):
+        out = []
+        for (y, doy, sec) in stamps:
+            d = dt.datetime(y, 1, 1) + dt.timedelta(days=doy % (366 if calendar.isleap(y) else 365), seconds=sec)
+            if (d.year, d.month, d.day >= 21) == (9999, 12, True):
+                d = d.replace(day=20)  # the very last dekad has no end_date / ndays (documented)
+            out.append(d.isoformat())
+        return {"times": sorted(set(out)), "unit": unit}
+
+    wide = st.builds(_wide, st.sampled_from(["s", "ms", "us"]),
+                     st.lists(st.tuples(st.one_of(st.integers(1, 9999), st.integers(1, 999), st.sampled_from([1, 99, 100, 999, 1000, 1582, 9999])),
+                                        st.integers(0, 365), st.sampled_from([0, 0, 46800, 86399])), min_size=1, max_size=12))
+    ctx.given("accessor", wide, ctx.n(150, 2500), fn=f_a)
